@@ -61,7 +61,7 @@ def make_query(rng, st):
         # parent steps hidden inside a filter of a has-path: they climb above the candidate of the outer filter
         key = rng.choice(gen.KEYS)
         inner = ["f", ["has", ["p", [["par"]] * rng.choice([1, 2, 2, 3]) + rng.choice([[], [["k", key]], [["gwc"]]])], []]]
-        outer = ["f", [rng.choice(["has", "has", "not"]), ["p", [rng.choice([["gwc"], ["wc"], ["k", key], ["iwc"]]), inner]], []]]
+        outer = ["f", [rng.choice(["has", "has", "not"]), ["p", [rng.choice([["gwc"], ["wc"], ["k", key], ["iwc"], ["par"], ["par"]]), inner]], []]]
         pos = rng.randint(1, len(sc["path"])) if sc["path"] else 0
         sc["path"] = [x for x in sc["path"][:pos]] + [outer] + sc["path"][pos:]
     if st.get("resume") and sc["api"] in ("find", "find_matches") and rng.random() < st["resume"]:
@@ -436,7 +436,8 @@ register("C12", streams=[Q("all", apis=ALL_APIS, src=True, untraced=0.4, share=3
                          Q("nopar", apis=ALL_APIS, src=True, untraced=0.4, share=1, up=1.0),
                          Q("keyidx", apis=["get", "get", "get_match", "find"], src=True, untraced=0.7, share=2)],
          observables=["full_results"], oracles=[oracles.concat_oracle],
-         extra=[families.MutateFamily("handles", 500, 15000, "searches from a Match that was written through (m.data = v, then find_matches(q, m)): locations and the node reached")],
+         extra=[families.MutateFamily("handles", 500, 15000, "searches from a Match that was written through (m.data = v, then find_matches(q, m)): locations and the node reached"),
+                families.MutateFamily("cascade", 500, 15000, "get(q, match, default, store_default=True) and cascading set_match from a Match: the same as from the root")],
          rule="pairs (p, q): every API function run on q from the k-th match of p, compared with the specification evaluated from the same match; p+q concatenation checked on the python side")
 register("C13", streams=[Q("parent", apis=["find_matches"], src=None, share=2, untraced=0.3, climb_in_has=0.25),
                          Q("parent", apis=ALL_APIS, src=True, share=1, untraced=0.4, climb_in_has=0.2)],
